@@ -120,6 +120,24 @@ fn catalogue(seed: u64, tier: &str) -> Vec<Value> {
             }
         }
     }
+    // decodes that wait for one another (a reader fed by another thread that decodes first)
+    {
+        use pairing::bls12_381::{G1, G2};
+        use pairing::{CurveAffine, CurveProjective, EncodedPoint};
+        let mut rng = xs(seed ^ 0x4141);
+        for (g, kind, form) in [("G2", "proj", "c"), ("G2", "aff", "c"), ("G1", "proj", "u"), ("G1", "aff", "c"), ("G2", "proj", "u")].iter() {
+            let (a, b): (Vec<u8>, Vec<u8>) = if *g == "G1" {
+                let (p, q) = (G1::random(&mut rng).into_affine(), G1::random(&mut rng).into_affine());
+                if *form == "c" { (p.into_compressed().as_ref().to_vec(), q.into_compressed().as_ref().to_vec()) }
+                else { (p.into_uncompressed().as_ref().to_vec(), q.into_uncompressed().as_ref().to_vec()) }
+            } else {
+                let (p, q) = (G2::random(&mut rng).into_affine(), G2::random(&mut rng).into_affine());
+                if *form == "c" { (p.into_compressed().as_ref().to_vec(), q.into_compressed().as_ref().to_vec()) }
+                else { (p.into_uncompressed().as_ref().to_vec(), q.into_uncompressed().as_ref().to_vec()) }
+            };
+            v.push(json!({"op": "pipe", "g": g, "kind": kind, "form": form, "a": bytes_to_j(&a), "b": bytes_to_j(&b), "cls": "mutually-waiting-decodes"}));
+        }
+    }
     // instances that share part of their input (same message and tag, other expander / field / suite)
     for sess in generate("c13", seed, "quick").into_iter().chain(generate("c06", seed, "quick").into_iter()) {
         for op in sess {
